@@ -540,6 +540,9 @@ func runC12(r *mc.Report, e *Env) {
 	}
 	r.Set("honest_rejected_outside_statement_reasons", c12StricterWhy)
 	r.Set("verify_part", map[string]any{"cases": len(cases), "relations": len(c12Rels), "corruptions": len(c12Corruptions(e.Thorough()))})
+	if e.Of <= 1 || e.Shard == e.Of-1 {
+		c12RunCarried(r, e)
+	}
 	if e.Shard == 0 {
 		depth := 4
 		if e.Thorough() {
@@ -549,6 +552,104 @@ func runC12(r *mc.Report, e *Env) {
 	}
 }
 
+// ---------- one client instance carried across a fork ----------
+//
+// Everything above builds a fresh client per step, and all its slots lie in one fork. Here one
+// client object verifies and applies a whole sequence whose updates lie on both sides of
+// mainnet's Bellatrix fork (epoch 144896 = first slot of sync period 566; fork versions
+// 0x01000000 before, 0x02000000 after). Menu: an honest optimistic update in period 565 signed
+// by the current committee, one in period 566 signed by the next committee, and each of them
+// signed under the other fork's version. Every sequence of <= 2 (thorough 3) of these. Clauses:
+// an update signed under the wrong fork's domain is never accepted (its aggregate is not a valid
+// signature of the message the configuration prescribes for its slot); and the carried client
+// never accepts what a fresh client holding the same store rejects.
+
+const (
+	c12ForkPeriod = 566
+	c12ForkSlot   = c12ForkPeriod * c12Period
+)
+
+func c12ForkMenu() []c12Upd {
+	before, after := uint64(c12ForkSlot-c12Period+200), uint64(c12ForkSlot+200)
+	return []c12Upd{
+		{Kind: "optimistic", Wire: "altair", Att: before, Sig: before + 1, Part: 512, Signer: "A", Ver: 1},
+		{Kind: "optimistic", Wire: "altair", Att: after, Sig: after + 1, Part: 512, Signer: "B", Ver: 2},
+		{Kind: "optimistic", Wire: "altair", Att: before + 2, Sig: before + 3, Part: 512, Signer: "A", Ver: 2},
+		{Kind: "optimistic", Wire: "altair", Att: after + 2, Sig: after + 3, Part: 512, Signer: "B", Ver: 1},
+	}
+}
+
+func c12RunCarried(r *mc.Report, e *Env) {
+	menu := c12ForkMenu()
+	built := make([]*c12Built, len(menu))
+	for i := range menu {
+		built[i] = c12Build(menu[i])
+	}
+	spec := c12StoreSpec{Fin: c12ForkSlot - c12Period + 64, Opt: c12ForkSlot - c12Period + 96, Cur: "A", Next: "B"}
+	now := uint64(c12ForkSlot + 4000)
+	rightVersion := func(u *c12Upd) uint8 {
+		if u.Sig >= c12ForkSlot {
+			return 2
+		}
+		return 1
+	}
+	length := 2
+	if e.Thorough() {
+		length = 3
+	}
+	n := 0
+	var rec func(seq []int)
+	rec = func(seq []int) {
+		if len(seq) > 0 {
+			n++
+			var us []c12Upd
+			for _, i := range seq {
+				us = append(us, menu[i])
+			}
+			cs := c12Case{Part: "carried", Store: spec, Now: now, Seq: us}
+			carried := c12Client(spec.store(), now)
+			var trace []string
+			for _, i := range seq {
+				u, b := &menu[i], built[i]
+				fresh := c12Client(carried.Store, now)
+				var errC, errF, aerr error
+				msg, site := c12InBubble(func() {
+					errF = c12Verify(fresh, u.Kind, b.obj)
+					if errC = c12Verify(carried, u.Kind, b.obj); errC == nil {
+						aerr = c12Apply(carried, u.Kind, b.obj)
+					}
+				})
+				if msg != "" || aerr != nil {
+					r.Violation("no-panic", site, fmt.Sprint(msg, aerr), cs)
+					break
+				}
+				if errC == nil && u.Ver != rightVersion(u) {
+					r.Violation("signature-valid-for-the-participating-keys", "VerifyGenericUpdate:carried-client-across-a-fork",
+						fmt.Sprintf("step %d of %v: an update with signature slot %d signed under fork version %02x000000 was accepted; the configuration prescribes %02x000000 for that slot", len(trace)+1, seq, u.Sig, u.Ver, rightVersion(u)), cs)
+				}
+				if errC == nil && errF != nil {
+					r.Violation("verdict-is-a-function-of-store-and-update", "VerifyGenericUpdate:carried-client-across-a-fork",
+						fmt.Sprintf("step %d of %v: the client that verified the earlier updates accepts, a fresh client holding the same store rejects (%v)", len(trace)+1, seq, errF), cs)
+				}
+				if errC != nil && errF == nil {
+					r.Count("model_drift_carried_client_rejects_what_a_fresh_one_accepts", 1)
+				}
+				trace = append(trace, fmt.Sprintf("%d:%v/%v", i, errC == nil, errF == nil))
+			}
+			r.Exec("carried|" + strings.Join(trace, ","))
+		}
+		if len(seq) == length || e.Expired() {
+			return
+		}
+		for i := range menu {
+			rec(append(append([]int{}, seq...), i))
+		}
+	}
+	rec(nil)
+	r.Count("carried_client_sequences", int64(n))
+	r.Sample(map[string]any{"part": "carried", "store": spec, "now_slot": now, "menu": menu})
+}
+
 func replayC12(r *mc.Report, e *Env, raw json.RawMessage) {
 	var cs c12Case
 	if err := json.Unmarshal(raw, &cs); err != nil {
@@ -556,6 +657,22 @@ func replayC12(r *mc.Report, e *Env, raw json.RawMessage) {
 	}
 	if cs.Part == "verify" {
 		c12CheckVerify(r, cs, cs.Store.store(), c12Build(*cs.U))
+		return
+	}
+	if cs.Part == "carried" {
+		carried := c12Client(cs.Store.store(), cs.Now)
+		for i := range cs.Seq {
+			u, b := &cs.Seq[i], c12Build(cs.Seq[i])
+			fresh := c12Client(carried.Store, cs.Now)
+			var errC, errF error
+			c12InBubble(func() {
+				errF = c12Verify(fresh, u.Kind, b.obj)
+				if errC = c12Verify(carried, u.Kind, b.obj); errC == nil {
+					c12Apply(carried, u.Kind, b.obj)
+				}
+			})
+			fmt.Printf("step %d: signature slot %d signed under version %02x000000: carried client %v, fresh client %v\n", i+1, u.Sig, u.Ver, errC, errF)
+		}
 		return
 	}
 	st := cs.Store.store()
